@@ -134,3 +134,72 @@ Proof. destruct st as [[o md] port]. eexists. split; reflexivity. Qed.
 Theorem emu_last_id_agrees st a :
   exists z, g_Emulator_LastMessageIdentifier st = Val (z, st) /\ estep (absE st a) ELastId = (OId z, absE st a).
 Proof. destruct st as [[o md] port]. eexists. split; reflexivity. Qed.
+
+(* ---- MarshalMessage: the identifier of the LAST setting of the requested type, or "not in configuration" ---- *)
+Definition last_match (dt : Z) (cfg : list setting) : option (Z * Z * Z) :=
+  fold_left (fun acc (s : setting) => let '(t, c, p, _) := s in if t =? dt then Some (t, c, p) else acc) cfg None.
+Definition mm_state (acc : option (Z * Z * Z)) : (Z * Z * Z) * bool :=
+  match acc with None => ((0, 0, 0), false) | Some id => (id, true) end.
+
+Definition mm_body (o : list setting * Z) (dt : Z) (v__ : Z) (t1 : (Z * Z * Z) * bool) : R ((Z * Z * Z) * bool) :=
+  let '(v_id, v_isSet) := t1 in
+  do v_d <- g_oget o v__;
+  (if (negb ((let '(dt_, _, _, _) := v_d in dt_) =? dt)) then Val (v_id, v_isSet)
+   else (let v_isSet := true in (let v_id := (let '(dt_, cs_, pr_, _) := v_d in (dt_, cs_, pr_)) in Val (v_id, v_isSet)))).
+
+Lemma mm_loop bk n dt : (n <= length bk)%nat ->
+  forall m k, (k + m = n)%nat ->
+  g_for_n m (Z.of_nat k) (mm_state (last_match dt (firstn k bk))) (mm_body (bk, Z.of_nat n) dt) =
+  Val (mm_state (last_match dt (firstn n bk))).
+Proof.
+  intros Hn. induction m as [|m IH]; intros k Hk.
+  - cbn [g_for_n]. replace k with n by lia. reflexivity.
+  - cbn [g_for_n]. unfold mm_body at 1.
+    destruct (mm_state (last_match dt (firstn k bk))) as [vid vset] eqn:Es.
+    unfold g_oget, g_olen, snd, fst.
+    destruct (Z.ltb_spec (Z.of_nat k) 0); [lia|]. destruct (Z.leb_spec (Z.of_nat n) (Z.of_nat k)); [lia|]. cbn [orb rbind].
+    rewrite Nat2Z.id. change gzero with zero_setting.
+    assert (Hf : last_match dt (firstn (S k) bk) =
+                 (let '(t, c, p, _) := nth k bk zero_setting in if t =? dt then Some (t, c, p) else last_match dt (firstn k bk))).
+    { assert (Hlt : (k < @length setting bk)%nat) by (unfold setting in *; lia).
+      rewrite (firstn_snoc bk k zero_setting Hlt). unfold last_match. rewrite fold_left_app. cbn [fold_left]. reflexivity. }
+    replace (Z.of_nat k + 1) with (Z.of_nat (S k)) by lia.
+    rewrite <- (IH (S k)) by lia. f_equal. rewrite Hf.
+    unfold setting in *. destruct (nth k bk zero_setting) as [[[t c] p] f].
+    destruct (Z.eqb_spec t dt) as [E|E]; cbn [negb].
+    + reflexivity.
+    + rewrite Es. reflexivity.
+Qed.
+
+Definition marshal_result (md : Z * Z * Z -> bytes * option Z) (acc : option (Z * Z * Z)) : bytes * option Z :=
+  match acc with
+  | None => ([], Some (-11))
+  | Some id => let '(b, e) := md id in match e with Some _ => ([], e) | None => (b, None) end
+  end.
+
+Theorem emu_marshal_agrees md dt st a : conf_ok st ->
+  g_Emulator_MarshalMessage md dt st = Val (marshal_result md (last_match dt (econf (absE st a))), st) /\
+  estep (absE st a) (EMarshal dt) =
+    (OMar (option_map (fun id => let '(t, c, p) := id in f_DataIdentifier_Uint16 t c p) (last_match dt (econf (absE st a)))), absE st a).
+Proof.
+  intros Hc. destruct st as [[[bk n] md0] port]. unfold conf_ok in Hc. cbn [fst snd] in Hc.
+  unfold absE. cbn [econf fst snd]. split.
+  - unfold g_Emulator_MarshalMessage. cbv zeta. unfold g_for, g_olen, snd. rewrite Z.sub_0_r.
+    assert (Hle : (Z.to_nat n <= @length setting bk)%nat) by (unfold setting in *; lia).
+    pose proof (mm_loop bk (Z.to_nat n) dt Hle (Z.to_nat n) 0%nat ltac:(lia)) as L.
+    rewrite Z2Nat.id in L by lia. cbn [firstn last_match fold_left mm_state Z.of_nat] in L.
+    unfold mm_body in L. unfold setting in *. rewrite L. cbn [rbind].
+    destruct (last_match dt (firstn (Z.to_nat n) bk)) as [id|]; cbn [mm_state marshal_result negb].
+    + destruct (md id) as [b [e|]]; reflexivity.
+    + reflexivity.
+  - cbn [estep econf]. f_equal. f_equal. unfold last_match.
+    set (cfg := firstn (Z.to_nat n) bk). clearbody cfg.
+    assert (G : forall acc,
+      fold_left (fun (acc : option Z) (st : setting) => let '(t, c, p, _) := st in if t =? dt then Some (f_DataIdentifier_Uint16 t c p) else acc) cfg
+                (option_map (fun id : Z * Z * Z => let '(t, c, p) := id in f_DataIdentifier_Uint16 t c p) acc) =
+      option_map (fun id : Z * Z * Z => let '(t, c, p) := id in f_DataIdentifier_Uint16 t c p)
+        (fold_left (fun acc (s : setting) => let '(t, c, p, _) := s in if t =? dt then Some (t, c, p) else acc) cfg acc)).
+    { induction cfg as [|[[[t c] p] f] cfg IH]; intros acc; [reflexivity|]. cbn [fold_left].
+      destruct (Z.eqb_spec t dt); [exact (IH (Some (t, c, p)))|exact (IH acc)]. }
+    exact (G None).
+Qed.
